@@ -398,6 +398,13 @@ def wsig_params(rng):
         edns = (rng.choice([512, 1232, 4096, 0, 65535, rng.randrange(65536)]),
                 rng.choice([0, 0, 1, 16, 23, 2047, 2048, 2049, 4095, rng.randrange(4096)]), rng.choice([0, 0, 1]))
     E = "E=" + (":".join(str(x) for x in edns) if edns else "-")
+    # V=: the message is continued through a Template (into_template + try_from_template[_as_tsig_subsequent]); for mode
+    # sb the template is made in another signing mode with another MAC, which the new prior MAC must replace (seed C11-G)
+    r = rng.random()
+    if mode == "sb" and r < 0.6:
+        E += f" V=s:{rng.choice(['rq', 'rs', 'sb', 'sb'])}:{hx(rand_pmac(rng)) or '00'}"
+    elif r < 0.25:
+        E += " V=p"
     head = (f"wsig {mode} {alg} {hx(key)} {hx(pmac)} {rng.randrange(65536)} {rng.choice([0, 1])} {hx(qname)} "
             f"{rng.choice([1, 2, 6, 16, 252])} {','.join(rrs) or '-'} {hx(kn)} {hx(u48(ts))} {fudge} {oid} {err} {hx(u48(st))} {E}")
     return head, dict(mode=mode, alg=alg, key=key, pmac=pmac, kn=kn, ts=ts, st=st, fudge=fudge, oid=oid, err=err, edns=edns)
@@ -510,6 +517,8 @@ def classify(case, impl, model, oracle):
         op += ":" + f[1]
     if op.startswith("wsig") and " E=" in case and " E=-" not in case:
         op += ":edns"
+    if op.startswith("wsig") and " V=" in case:
+        op += ":tmpl-" + case.split(" V=")[1].split()[0][:4].rstrip(":")
     if op.startswith("read"):
         return "read:" + ("valid" if impl.startswith("val=ok") else "invalid") + ":" + impl.split(" tf=")[1].split()[0] + \
             ("-" + impl.split(" tf=")[1].split()[1] if " tf=err" in impl else "")
@@ -530,7 +539,7 @@ CHECK = {
         "name": "lib", "impl_bin": "impl_c11", "extract": "Extract/ExC11.v", "driver": "run_c11.ml",
         "gen": gen, "nontrivial": nontrivial, "classify": classify, "oracle_ok": oracle_ok,
         "exhaustive": {"quick": False, "thorough": False},
-        "rule": ("seeded cases against the library API: Writer-built messages (questions, A/TXT/NS/MX records, name compression, key names sharing a suffix with the QNAME; half of them with set_edns + set_extended_rcode incl. values >= 2048, before or after set_tsig, so that an OPT RR precedes the TSIG RR and must be under the MAC) signed by set_tsig + finish_with_mac in all four modes and read back with the Reader; sign_request/response/subsequent on random messages (consistent and "
+        "rule": ("seeded cases against the library API: Writer-built messages (questions, A/TXT/NS/MX records, name compression, key names sharing a suffix with the QNAME; half of them with set_edns + set_extended_rcode incl. values >= 2048, before or after set_tsig, so that an OPT RR precedes the TSIG RR and must be under the MAC; a quarter continued through into_template + try_from_template, and 60% of the subsequent-mode ones through a template made in request/response/subsequent mode with another MAC + try_from_template_as_tsig_subsequent, which must sign with the NEW prior MAC) signed by set_tsig + finish_with_mac in all four modes and read back with the Reader; sign_request/response/subsequent on random messages (consistent and "
                  "inconsistent headers, ARCOUNT borrow cases, too-short / ARCOUNT=0 messages), keys of 0..200 octets, both "
                  "algorithms, times 0..2^48-1, fudges, original IDs, error codes incl. BADTIME other-data, prior MACs incl. "
                  ">65535 octets; unsigned(); ReadTsigRr::try_from + accessors + validate_as_tsig on valid and mangled RDATA, "
